@@ -7,6 +7,7 @@ REPO = os.environ.get("VERIF_REPO", "/repo")
 SCRATCH_ROOT = os.environ.get("VERIF_SCRATCH", "/tmp/verif-scratch")
 KANI_BASE = os.path.join(VERIF, ".cache", "kani-base")
 sys.path.insert(0, os.path.join(VERIF, "lib"))
+sys.path.insert(0, os.path.join(VERIF, "contracts", "verus"))
 import rsx  # noqa
 
 ENV = dict(os.environ, CARGO_NET_OFFLINE="true", CARGO_TERM_COLOR="never")
@@ -143,7 +144,7 @@ def apply_kani_overlay(scr, unit):
         p = scr.path(m["file"])
         if not os.path.exists(p):
             raise Undecided("lost anchor: file %s does not exist" % m["file"])
-        src = open(os.path.join(VERIF, "contracts", "kani", m["src"])).read()
+        src = m["text"] if "text" in m else open(os.path.join(VERIF, "contracts", "kani", m["src"])).read()
         for k, v in m.get("subst", {}).items():
             src = src.replace(k, v)
         with open(p, "a") as f:
